@@ -50,6 +50,8 @@ def eC : Ev := { n := 3, ts := 19, idnum := 11, cipher := 3, sender := 3, path :
 def fA : Ev := { n := 4, ts := 30, idnum := 5, cipher := 4, sender := 0, path := [2], kind := .commit .selfUpdate [] }
 def fB : Ev := { n := 5, ts := 29, idnum := 8, cipher := 5, sender := 3, path := [2], kind := .commit (.setName 7) [] }
 def gA : Ev := { n := 6, ts := 40, idnum := 2, cipher := 6, sender := 3, path := [2, 5], kind := .commit (.setName 9) [] }
+/-- a child of the loser A (created on the branch [1], which the client leaves for good at level 1) -/
+def hA : Ev := { n := 7, ts := 25, idnum := 1, cipher := 7, sender := 3, path := [1], kind := .commit (.setName 8) [] }
 def T1 : List Ev := [eA, eB, eC]
 def later : List Level := [(fB, [fA, fB]), (gA, [gA])]
 def chain3 : List Level := (eB, T1) :: later
@@ -185,6 +187,26 @@ example : ∃ w, IsMin w T1 ∧ (run 0 b2 [eA, eC, eA, eB]).g.path = b2.g.path +
 example : (run 0 b2 [eA, eC, eA, eB]).g.path = [2] ∧ (run 0 k1 [eB, eA, eC, eA]).g.path = [2] ∧
     (run 0 k1 [eA, eC, eB, eA]).g.path = [2] ∧ (run 0 k1 [eA, eC, eB, eA]).g.name = 4 ∧
     (run 0 k1 [eA, eC, eB, eA]).g.pending = none := by decide
+
+example : (run 0 b2 [eA, eC, eA, eB]).g.members = (run 0 k1 [eB, eA, eC, eA]).g.members ∧
+    (run 0 b2 [eA, eC, eA, eB]).g.name = (run 0 k1 [eB, eA, eC, eA]).g.name := by
+  obtain ⟨_, _, h3, _, h5, _⟩ := fork_agree_data b2 k1 T1 [eA, eC, eA, eB] [eB, eA, eC, eA] 0 0 b2_atFork k1_atFork
+    (by constructor <;> decide) rfl (by decide) (by decide) (by decide)
+  exact ⟨h3, h5⟩
+
+example : ∃ w, IsMin w T1 ∧ core (run 0 k1 [eB, eA, eC, eA]).g = coreStep (core b2.g) w :=
+  let ⟨w, hw, _, h2⟩ := fork_agree_core b2 k1 T1 [eA, eC, eA, eB] [eB, eA, eC, eA] 0 0 b2_atFork k1_atFork (by decide)
+    (by decide) (by decide) (by decide)
+  ⟨w, hw, h2⟩
+
+example : (run 0 b2 [eA, eC, eA, eB]).g.path = (run 0 k1 [eB, eA, eC, eA]).g.path :=
+  ((fork_agree_all [(b2, [eA, eC, eA, eB], 0), (k1, [eB, eA, eC, eA], 0)] T1 eB b2.g 5 (by decide)
+    (fun p hp => by
+      simp only [List.mem_cons, List.not_mem_nil, or_false] at hp
+      rcases hp with rfl | rfl
+      · exact ⟨b2_atFork, by constructor <;> rfl, rfl, by decide⟩
+      · exact ⟨k1_atFork, by constructor <;> decide, rfl, by decide⟩)).2
+    (b2, [eA, eC, eA, eB], 0) (by simp) (k1, [eB, eA, eC, eA], 0) (by simp)).1
 
 /-! ### 2. frame of `process_message` (for every state, event and fuel) -/
 
@@ -360,6 +382,20 @@ example : (run 0 b2 [[eA, eC, eA, eB], [fA, fB, fA], [gA, gA]].flatten).g.path =
     (run 0 b2 [[eB, eC, eA], [fB, fA], [gA]].flatten).g.path = [2, 5, 6] ∧
     (getRec (run 0 b2 [[eA, eC, eA, eB], [fA, fB, fA], [gA, gA]].flatten) 4).map (·.state) = some 4 := by decide
 
+example : core (run 0 b2 [[eA, eC, eA, eB], [fA, fB, fA], [gA, gA]].flatten).g = [eB, fB, gA].foldl coreStep (core b2.g) ∧
+    epochOf (run 0 b2 [[eA, eC, eA, eB], [fA, fB, fA], [gA, gA]].flatten).g.path = epochOf b2.g.path + 3 := by
+  obtain ⟨h1, h2, _⟩ := chain_bystander_data b2 chain3 [[eA, eC, eA, eB], [fA, fB, fA], [gA, gA]] 0 rfl (by decide)
+    b2_secrets b2_below b2_chain (by decide) (by decide)
+  exact ⟨h1, h2⟩
+
+/-- non-vacuity of `chain_reachable`: the state reached by a history (here: the delivery of A), and the
+    chain that starts there (the child hA of A) -/
+example : (run 0 ([C08.COp.deliver eA 0].foldl C08.cstep (initCl 2 false 5 [0, 1, 2, 3] [0, 1, 3] 1)) [[hA, hA]].flatten).g.path =
+    ([C08.COp.deliver eA 0].foldl C08.cstep (initCl 2 false 5 [0, 1, 2, 3] [0, 1, 3] 1)).g.path ++ [(hA, [hA])].map (·.1.cipher) :=
+  chain_reachable 2 false 5 [0, 1, 2, 3] [0, 1, 3] 1 [C08.COp.deliver eA 0] [(hA, [hA])] [[hA, hA]] 0 (by decide) (by decide)
+    ⟨levelEv_of_dec _ _ _ _ (by decide) (by decide) (by decide) (by decide) (by decide), by decide, by decide, trivial⟩
+    (by decide) (by decide)
+
 /-! ### 4. a chain of forks, many clients -/
 
 /-- a client with its own level-by-level schedule: `l` for the first level, `ls` for the later ones -/
@@ -473,6 +509,24 @@ example : p1.final.g.path = p2.final.g.path ∧ wc p1.final.g [] = wc p2.final.g
 
 example : p1.final.g.path = [2, 5, 6] ∧ p2.final.g.path = [2, 5, 6] ∧ p2.final.g.name = 9 ∧ p2.final.g.pending = none := by decide
 
+example : p1.final.g.members = p2.final.g.members ∧ p1.final.g.name = p2.final.g.name ∧
+    epochOf p1.final.g.path = epochOf b2.g.path + 3 := by
+  obtain ⟨_, _, h3, _, h5, _, _, _, _, h10⟩ := chain_converges_data [p1, p2] b2.g 5 eB T1 later (by decide) (by decide)
+    (fun p hp => by
+      simp only [List.mem_cons, List.not_mem_nil, or_false] at hp
+      rcases hp with rfl | rfl
+      · exact p1_ok
+      · exact p2_ok) p1 (by simp) p2 (by simp)
+  exact ⟨h3, h5, h10⟩
+
+example : core p2.final.g = [eB, fB, gA].foldl coreStep (core b2.g) :=
+  chain_converges_core [p1, p2] (core b2.g) eB T1 later (by decide) (by decide)
+    (fun p hp => by
+      simp only [List.mem_cons, List.not_mem_nil, or_false] at hp
+      rcases hp with rfl | rfl
+      · exact ⟨b2_atFork, b2_below, rfl, by decide, later_chain 2 (by decide), by decide, by decide⟩
+      · exact ⟨k1_atFork, k1_below, by decide, by decide, later_chain 1 (by decide), by decide, by decide⟩) p2 (by simp)
+
 /-! ### 5a. stale events are refused and may be interleaved freely -/
 
 /-- **stale_refused**: an event created in a state that is not a prefix of the client's MLS path — on a
@@ -511,6 +565,11 @@ theorem stale_refused (c : Cl) (e : Ev) (nx : Nat) (hg : c.hasGroup = true) (hs 
       show (deliverN 3 nx c e).2 = _
       rw [h]
 
+/-- non-vacuity of `stale_refused`: the child hA of the loser A, offered after the client moved to B -/
+example : proj (deliver (run 0 b2 [eA, eB]) hA 0).1 = proj (run 0 b2 [eA, eB]) :=
+  (stale_refused (run 0 b2 [eA, eB]) hA 0 (by decide)
+    (fork_restores b2 T1 [eA, eB] 0 b2_atFork b2_secrets b2_below (by decide) (by decide)).2.2.1 (by decide)).1
+
 /-- **chain_bystander_stale**: the chain theorem for schedules that, inside every level's delivery list,
     interleave any number of stale events (`StalePath`: created in a state that is neither a prefix of the
     level's parent path nor a child of it by one of the level's commits — e.g. descendants of a branch
@@ -527,9 +586,6 @@ theorem chain_bystander_stale (c : Cl) (Ls : List Level) (ls : List (List Ev)) (
       ∃ r, getRec (run nx c ls.flatten) e.n = some r ∧ (r.state = 3 ∨ r.state = 4)) := by
   have h := chain_rest_mixed nx (evs Ls) Ls c ls ⟨hg, hr, hsec, hbelow⟩ hch (fun _ h => h) hu hw
   exact ⟨h.path, h.g, h.win, fun L hL e he hne => h.lose L hL e he hne (chainEv_foreign hch L hL e he)⟩
-
-/-- a child of the loser A (created on the branch [1] the client left for good after level 1) -/
-def hA : Ev := { n := 7, ts := 25, idnum := 1, cipher := 7, sender := 3, path := [1], kind := .commit (.setName 8) [] }
 
 /-- non-vacuity: `hA` offered before, between and after the commits of levels 2 and 3 -/
 example : (run 0 b2 [[eA, eC, eA, eB], [hA, fA, fB, hA, fA], [gA, hA, gA]].flatten).g.path = b2.g.path ++ chain3.map (·.1.cipher) :=
